@@ -187,7 +187,7 @@ func Gen(t *rapid.T, cfg Cfg) *Program {
 			continue
 		}
 		for {
-			base := rapid.SampledFrom([]string{"base", "common", "shared", "types", "model_v1"}).Draw(t, "fbase")
+			base := rapid.SampledFrom([]string{"base", "common", "shared", "types", "model_v1", "api.v2"}).Draw(t, "fbase")
 			if !cfg.SameBase {
 				base = fmt.Sprintf("%s%d", base, i)
 			}
@@ -237,7 +237,7 @@ func (g *gen) genFile(f *File) {
 		}
 	}
 	// namespaces
-	if !(cfg.NoNamespace && f.Index != 0 && g.p(1, 5, "nons")) {
+	if !(cfg.NoNamespace && f.Index != 0 && !strings.Contains(f.Prefix(), ".") && g.p(1, 5, "nons")) {
 		ns := fmt.Sprintf("p%d", f.Index)
 		if g.p(1, 3, "deepns") {
 			ns += ".sub.pkg" + strconv.Itoa(f.Index)
